@@ -764,7 +764,7 @@ def router_suites(ctx, st):
                 failing.append((case, 1, bad))
 
     styles = ["id", "perm", "str"]
-    reps = 8 if th else 3
+    reps = 20 if th else 5
     # all connected graphs on <= 5 nodes
     for G in atlas:
         for router in ("ShortestPaths", "Sabre"):
@@ -777,11 +777,11 @@ def router_suites(ctx, st):
     # structured larger graphs
     for G in structured:
         for router in ("ShortestPaths", "Sabre"):
-            for r in range(4 if th else 2):
+            for r in range(8 if th else 2):
                 one(G, router, rng.choice(styles), rng.randint(6, 25), rng.choice(["int", "int", "float"]),
                     rng.choice(["none", "trailing", "mid"]), calls=2 if rng.random() < 0.15 else 1)
     # star router: every position of the centre, every label style
-    for r in range(90 if th else 30):
+    for r in range(240 if th else 40):
         G = nx.star_graph(4)
         one(G, "StarConnectivityRouter", styles[r % 3], rng.randint(2, 25), rng.choice(["int", "int", "float", "det"]),
             rng.choice(["none", "trailing", "mid"]), calls=2 if r % 4 == 0 else 1)
@@ -915,7 +915,7 @@ def blocks_and_dag_suite(ctx, st):
 
     rng = ctx.rng
     nbad = 0
-    for r in range(600 if ctx.thorough else 150):
+    for r in range(1500 if ctx.thorough else 200):
         n = rng.randint(2, 6)
         mode = rng.choice(["int", "float", "det"])
         meas = rng.choice(["none", "trailing", "mid", "mid"])
